@@ -274,6 +274,9 @@ class Profile(Lower):
                 return '(SV_SIZE(%s) == 0)' % o
             if name == 'front':
                 return 'SV_AT(%s, 0)' % o
+            if name == 'compare' and len(args) == 3 and self.ct(args[2]) == 'bl_sv':
+                self.needs_prop = True          # std::out_of_range when pos > size()
+                return 'bl_sv_compare_sub(%s, %s, %s, %s)' % (o, self.expr(args[0]), self.expr(args[1]), self.expr(args[2]))
             if name == 'substr':
                 self.needs_prop = True
                 return 'bl_sv_substr(%s, %s)' % (o, ', '.join(self.expr(a) for a in args))
